@@ -244,6 +244,9 @@ func init() {
 				x.Fail("L", "blocked forever: %s [%s]", e, desc)
 			}
 		},
+		Conform: func() []explore.Params {
+			return []explore.Params{{"proto": "netrpc"}, {"proto": "grpc"}, {"proto": "grpcmux"}}
+		},
 		Instances: func(tier string) []explore.Params {
 			return []explore.Params{{"proto": "netrpc"}, {"proto": "grpc"}, {"proto": "grpcmux"}}
 		},
